@@ -286,6 +286,17 @@ def r27(F):
             if op_place(a) is not None and "std::env::current_dir" in calls_in(o.at(a, b)):
                 users.append((callee(t), i))
     allowed = lambda c: c.endswith(("Try>::branch", "VM::with_pointer", "VM::to_scoped", "VM::with_import_stack", "VM::binding_push", "VM::run", "VM::pop", "::from_residual")) or "drop" in c
+    # an iterator adaptor that runs a closure of fcall_impl over the bindings: what the closure does with what it captured
+    # (the call VM) is held to the same list
+    adaptors = {c for c, i in users if "iterator::Iterator" in c or "Iterator::" in c}
+    if adaptors:
+        for cf in F.closures_of(fi.name):
+            oc = Origins(cf)
+            for b, t in cf.calls():
+                for i, a in enumerate(t["args"]):
+                    if op_place(a) is not None and ("param", 1) in oc.at(a, b) and not util.is_std_callee(callee(t)):
+                        users.append((callee(t), i))
+        users = [(c, i) for c, i in users if c not in adaptors]
     bad = sorted({c for c, i in users if not allowed(c)})
     r.inst("fcall_impl:cwd-flow", fi.where(), not bad, "current_dir() only seeds the call VM's working_dir" if not bad else "current_dir() flows into %s" % bad)
     from ..access import field_accesses
